@@ -88,24 +88,27 @@ FORMS = [  # (template over Q a b c m, python predicate)
     ("abs({Q} - {m}) < {c}", lambda q, a, b, c, m: abs(q - m) < c), ("abs({Q} + {m}) <= {c}", lambda q, a, b, c, m: abs(q + m) <= c),
     ("abs({m} - {Q}) < {c}", lambda q, a, b, c, m: abs(m - q) < c), ("abs({m} + {Q}) < {c}", lambda q, a, b, c, m: abs(m + q) < c),
     ("{c} > abs({Q} - {m})", lambda q, a, b, c, m: c > abs(q - m)),
-    ("{Q} < Range({b}, {b} + 0.001)", None),  # random "constant": must not be matched; not re-evaluated
+    ("{Q} < {r}", None),  # r is a random "constant" (a Range bound to a name): must not be matched; not re-evaluated
 ]
 KINDS = ["require {e}", "require[0.5] {e}", "terminate when {e}", "record {e} as rec{i}", "require always {e}"]
 
 
-def requirement(t, tag, i, quantity, target, consts):
-    """One statement about (relative heading | distance) of `target` w.r.t. the ego."""
+def requirement(t, tag, i, quantity, target, consts, diffs=(0.0,)):
+    """One statement about (relative heading | distance) of `target` w.r.t. the ego; `diffs` = heading
+    differences that occur between cells of the field (bounds are placed around one of them)."""
     if quantity == "rh":
-        Q = ["(relative heading of {x})", "(relative heading of {x} from ego)"][t.weighted([5, 1], tag + "q")]
-        lo, w = ANG[t.draw(5, tag + "lo")] - 0.3 * t.draw(3, tag + "lo2"), [1.0, 0.5, 2.0, 3.5][t.draw(4, tag + "w")]
-        a, b, c, m = lo, lo + w, [0.6, 1.2, 2.0, 0.3][t.draw(4, tag + "c")], ANG[t.draw(5, tag + "m")]
+        Q = ["(relative heading of {x})", "(relative heading of {x} from ego)"][t.weighted([7, 1], tag + "q")]
+        d, w = diffs[t.draw(len(diffs), tag + "diff")], [0.3, 0.6, 1.0, 2.0][t.draw(4, tag + "w")]
+        a, b, c, m = d - w, d + [0.3, 0.6, 1.5][t.draw(3, tag + "w2")], abs(d) + w, (d if t.draw(2, tag + "m") else 0.0)
     else:
         Q = ["(distance to {x})", "(distance from {x})", "(distance from ego to {x})"][t.weighted([3, 2, 1], tag + "q")]
         a, w = [0.0, 2.0, 8.0, 15.0][t.draw(4, tag + "lo")], [12.0, 6.0, 25.0, 3.0][t.draw(4, tag + "w")]
         b, c, m = a + w, [12.0, 6.0, 25.0][t.draw(3, tag + "c")], [0.0, 5.0, -3.0, 12.0][t.draw(4, tag + "m")]
     fi = t.draw(len(FORMS), tag + "form")
     tmpl, pred = FORMS[fi]
-    named = t.draw(4, tag + "named") == 3  # constants through a global name / an expression
+    if quantity == "rh" and "{m}" in tmpl and m:  # |Q - d| < w, written with either sign of the constant
+        c, m = w, (-m if "+" in tmpl else m)
+    named =t.draw(4, tag + "named") == 3  # constants through a global name / an expression
     val = {n: round(float(v), 6) for n, v in (("a", a), ("b", b), ("c", c), ("m", m))}
 
     def k(name):
@@ -118,7 +121,9 @@ def requirement(t, tag, i, quantity, target, consts):
             return f"({d!r} deg)"
         return num(val[name])
     used = {n: k(n) for n in "abcm" if "{" + n + "}" in tmpl}
-    expr = tmpl.format(Q=Q.format(x=target), **{**dict(a="", b="", c="", m=""), **used})
+    if "{r}" in tmpl:
+        consts.append(f"KR{i} = Range({num(b)}, {num(b + 0.001)})")
+    expr = tmpl.format(Q=Q.format(x=target), **{**dict(a="", b="", c="", m="", r=f"KR{i}"), **used})
     kind = t.weighted([8, 2, 1, 1, 1], tag + "kind")
     vals = tuple(val[n] for n in "abcm")
     return types.SimpleNamespace(text=KINDS[kind].format(e=expr, i=i), hard=kind in (0, 4), kind=KINDS[kind].split(" {")[0], quantity=quantity,
@@ -167,7 +172,7 @@ def gen(t):
     fam = t.weighted([3, 2, 3, 3], "family")
     P = types.SimpleNamespace(family=["contain2d", "contain3d", "heading", "visibility"][fam], mode2D=False, reqs=[], objs=[], cells=None)
     lines, consts = [], []
-    nobj = 1 + t.draw(3, "nobj")
+    nobj = (2 + t.draw(2, "nobj")) if fam == 2 else 1 + t.draw(3, "nobj")
     names = ["ego"] + [f"o{i}" for i in range(1, nobj)]
     collide = t.draw(4, "collisions") == 3
 
@@ -228,7 +233,8 @@ def gen(t):
 
     else:
         flat = t.draw(3, "3d-workspace") != 2
-        W = 10.0 + 4 * t.draw(3, "W")
+        W = 6.0 + 3 * t.draw(3, "W")
+        quiet = "" if t.draw(4, "occluding") == 3 else "with occluding False"  # occlusion is not what pruning reasons about (and costly)
         wtxt, wref = region2d(t, "W.", (0.0, 0.0, 0.0), W, kinds=("rect", "poly")) if flat else region3d(t, "W.", (0.0, 0.0, 3.0), W, 6.0)
         lines.append(f"wreg = {wtxt}")
         if flat:
@@ -245,7 +251,7 @@ def gen(t):
             c = (0.2 * W * zig(t.draw(5, "ego-x")), 0.2 * W * zig(t.draw(3, "ego-y")), 0.0 if flat else 3.0)
             ego.spec.append(f"at {vec(c)}")
         facing(t, "ego.", ego, tilt=False)
-        ego.spec.append(f"with visibleDistance {num([5, 3, 8, 0.6, 1.5][t.draw(5, 'vd')])}")
+        ego.spec.append(f"with visibleDistance {num([5, 3, 8, 0.6, 1.5][t.weighted([4, 4, 2, 1, 2], 'vd')])}")
         va = t.draw(4, "view")
         if va:
             ego.spec.append([None, "with viewAngle 90 deg", "with viewAngles (140 deg, 60 deg)", "with viewAngle 30 deg"][va])
@@ -254,7 +260,7 @@ def gen(t):
         P.objs.append(ego)
         for i, nm in enumerate(names[1:], 1):
             o = new_obj(nm)
-            if t.draw(3, f"o{i}.spheroid") == 2:
+            if t.draw(5, f"o{i}.spheroid") == 4:
                 o.spec.append("with shape SpheroidShape(dimensions=(2, 2, 2))")
             else:
                 sizes(t, f"o{i}.", o, p=2)
@@ -265,15 +271,20 @@ def gen(t):
             o.require_visible, o.visible_from = v == 1, {2: "ego", 3: src}.get(v)
             P.objs.append(o)
         collide = False
+        for o in P.objs:
+            o.spec += [quiet] if quiet else []
         if cyclic:  # o1 must exist before the ego refers to it
             P.objs[0], P.objs[1] = P.objs[1], P.objs[0]
 
     for i, o in enumerate(P.objs):
         o.spec += [f"with cid {i}"] + ([] if collide else ["with allowCollisions True"])
         lines.append(f"{o.name} = new Object " + ", ".join(o.spec))
-    if nobj > 1:
-        for i in range(t.weighted([2, 3, 2, 1], "nreq") if fam == 2 else t.draw(2, "nreq")):
-            q = "rh" if fam == 2 and t.draw(3, f"q{i}.quantity") != 2 else "dist"
-            P.reqs.append(requirement(t, f"q{i}.", i, q, names[1 + t.draw(nobj - 1, f"q{i}.target")], consts))
+    if fam == 2:  # a relative-heading bound, usually with something that bounds the distance, then anything
+        diffs = sorted({round(norm_angle(h2 - h1), 6) for _, h1 in P.cells for _, h2 in P.cells}, key=lambda d: (abs(d), d))
+        for i in range(1 + t.weighted([2, 3, 1], "nreq")):
+            q = "rh" if i == 0 or t.draw(3, f"q{i}.quantity") == 2 else "dist"
+            P.reqs.append(requirement(t, f"q{i}.", i, q, names[1 if i < 2 else 1 + t.draw(nobj - 1, f"q{i}.target")], consts, diffs))
+    elif nobj > 1 and t.draw(2, "nreq"):
+        P.reqs.append(requirement(t, "q0.", 0, "dist", names[1 + t.draw(nobj - 1, "q0.target")], consts))
     P.text = HEADER + "\n".join(consts + lines + [r.text for r in P.reqs]) + "\n"
     return P
